@@ -106,6 +106,9 @@ pub struct Exch {
     pub upgrade: bool,
     pub waker: Option<Waker>,
     pub polled_once: bool,
+    /// fault: the response future panics the next time it is polled (user code below the pool -
+    /// a connection implementation, a middleware - is not under the library's control)
+    pub panic_next: bool,
 }
 
 #[derive(Clone, Debug)]
@@ -508,6 +511,10 @@ impl Future for ExchFuture {
         let mut w = self.w.lock();
         let id = self.id;
         match w.exchs[id].state {
+            AsyncState::Pending if w.exchs[id].panic_next => {
+                drop(w);
+                panic!("{}", crate::simrt::INJECTED_PANIC);
+            }
             AsyncState::Pending => {
                 w.exchs[id].waker = Some(cx.waker().clone());
                 let c = w.exchs[id].conn;
@@ -585,7 +592,7 @@ impl<B> Connection<B> for SimConn {
         if usable && !w.conns[c].h2 && !w.lazy_send {
             w.conns[c].busy = true;
         }
-        w.exchs.push(Exch { id, req, conn: c, state, upgrade: false, waker: None, polled_once: false });
+        w.exchs.push(Exch { id, req, conn: c, state, upgrade: false, waker: None, polled_once: false, panic_next: false });
         w.ev(40, id as u64, c as u64);
         ExchFuture { w: self.w.clone(), id, done: false }
     }
